@@ -18,7 +18,7 @@ import (
 
 // Step is one action against the running daemon.
 type Step struct {
-	Kind   string `json:"kind"`   // attest | attests | propose | sign | multisign | list | restart-kill | restart-term
+	Kind   string `json:"kind"`   // attest | attests | propose | sign | multisign | list | lock | unlock | create | restart-kill | restart-term
 	Client string `json:"client"` // alice | bob | carol (no permissions) | mallory (certificate from another authority) | none (no certificate)
 	Accs   []int  `json:"accs,omitempty"`
 	ByKey  bool   `json:"by_key,omitempty"`
@@ -105,13 +105,14 @@ var propertyOf = map[string]string{
 	"answer-count":                   "C08",
 	"valid-duty-refused":             "C09",
 	"listing-wrong":                  "C18",
+	"managed-without-permission":     "C07",
 	"served-without-ca-certificate":  "C19",
 	"daemon-died":                    "C20",
 }
 
 type outcome struct {
-	released, refused, restarts, foreign, listed int
-	trace                                        []string
+	released, refused, restarts, foreign, listed, created, managed int
+	trace                                                          []string
 }
 
 type result struct {
@@ -137,6 +138,7 @@ func run(c *Case, only string) (*outcome, *vkit.Violation, error) {
 		}
 	}
 	restartedSince := map[string]bool{}
+	created := map[string]string{} // wallet/name -> hex public key, accounts created through the daemon
 	var viol *vkit.Violation
 	report := func(kind string, format string, args ...any) {
 		if viol != nil {
@@ -244,6 +246,43 @@ func run(c *Case, only string) (*outcome, *vkit.Violation, error) {
 					results = append(results, result{r.GetState().String(), r.GetSignature()})
 				}
 			}
+		case "lock", "unlock", "create":
+			a := accs[0]
+			var state string
+			var op, target string
+			var pub []byte
+			switch s.Kind {
+			case "lock":
+				resp := &pb.LockAccountResponse{}
+				rpcErr = d.Invoke(cn, foreign, "/v1.AccountManager/Lock", &pb.LockAccountRequest{Account: a.Path()}, resp)
+				state, op, target = resp.GetState().String(), "Lock account", a.Name
+			case "unlock":
+				resp := &pb.UnlockAccountResponse{}
+				rpcErr = d.Invoke(cn, foreign, "/v1.AccountManager/Unlock", &pb.UnlockAccountRequest{Account: a.Path(), Passphrase: []byte(vkit.DefaultPassphrase)}, resp)
+				state, op, target = resp.GetState().String(), "Unlock account", a.Name
+			default:
+				target = fmt.Sprintf("made%d", si)
+				resp := &pb.GenerateResponse{}
+				rpcErr = d.Invoke(cn, foreign, "/v1.AccountManager/Generate", &pb.GenerateRequest{Account: a.Wallet + "/" + target, Passphrase: []byte(vkit.DefaultPassphrase), Participants: 1, SigningThreshold: 1}, resp)
+				state, op, pub = resp.GetState().String(), "Create account", resp.GetPublicKey()
+			}
+			o.trace = append(o.trace, fmt.Sprintf("%s %s %s/%s -> %s err=%v", s.Kind, s.Client, a.Wallet, target, state, rpcErr != nil))
+			ok := rpcErr == nil && state == "SUCCEEDED"
+			switch {
+			case !trusted && ok:
+				report("served-without-ca-certificate", "%s: %s on %s/%s succeeded for a caller without a certificate from the configured authority", where, op, a.Wallet, target)
+			case trusted && rpcErr != nil:
+				return o, nil, fmt.Errorf("%s: transport error for a trusted client: %v: %s", where, rpcErr, d.Logs())
+			case ok && !pc.Allowed(s.Client, a.Wallet, target, op):
+				report("managed-without-permission", "%s: %q on %s/%s succeeded although the permissions of %s refuse it", where, op, a.Wallet, target, s.Client)
+			}
+			if ok && s.Kind == "create" {
+				created[a.Wallet+"/"+target] = fmt.Sprintf("%x", pub)
+				o.created++
+			}
+			if ok {
+				o.managed++
+			}
 		case "list":
 			resp := &pb.ListAccountsResponse{}
 			rpcErr = d.Invoke(cn, foreign, "/v1.Lister/ListAccounts", &pb.ListAccountsRequest{Paths: []string{WA, WB}}, resp)
@@ -263,6 +302,28 @@ func run(c *Case, only string) (*outcome, *vkit.Violation, error) {
 				return o, nil, fmt.Errorf("%s: transport error for a trusted client: %v: %s", where, rpcErr, d.Logs())
 			}
 			o.listed++
+			for path, pk := range created {
+				i := strings.Index(path, "/")
+				want := pc.Allowed(s.Client, path[:i], path[i+1:], "Access account")
+				gpk, have := got[path]
+				switch {
+				case want && !have:
+					report("listing-wrong", "%s: %s was created through the daemon and is accessible to %s but was not listed", where, path, s.Client)
+				case !want && have:
+					report("listing-wrong", "%s: %s was listed although %s may not access it", where, path, s.Client)
+				case have && gpk != pk:
+					report("listing-wrong", "%s: %s was listed with public key %s, created with %s", where, path, gpk, pk)
+				}
+			}
+			for name := range got {
+				known := false
+				for _, a := range world.Accounts {
+					known = known || a.Path() == name
+				}
+				if _, ok := created[name]; !ok && !known {
+					report("listing-wrong", "%s: %s was listed but no such account exists", where, name)
+				}
+			}
 			for _, a := range world.Accounts {
 				want := pc.Allowed(s.Client, a.Wallet, a.Name, "Access account")
 				pk, have := got[a.Path()]
@@ -284,7 +345,7 @@ func run(c *Case, only string) (*outcome, *vkit.Violation, error) {
 
 			return o, nil, fmt.Errorf("%s: daemon died: %s", where, d.Logs())
 		}
-		if s.Kind == "list" {
+		if s.Kind == "list" || s.Kind == "lock" || s.Kind == "unlock" || s.Kind == "create" {
 			if viol != nil {
 				return o, viol, nil
 			}
@@ -422,6 +483,8 @@ func run(c *Case, only string) (*outcome, *vkit.Violation, error) {
 	return o, nil, nil
 }
 
+var focusOps = []string{"Sign", "Sign beacon attestation", "Sign beacon proposal", "Access account", "Access account", "Lock account", "Unlock account", "Create account"}
+
 var clientsAll = []string{"alice", "alice", "alice", "bob", "bob", "carol", "mallory", "none"}
 
 func genPerms(t *rapid.T) map[string]map[string][]string {
@@ -430,16 +493,20 @@ func genPerms(t *rapid.T) map[string]map[string][]string {
 	for _, client := range []string{"alice", "bob"} {
 		m := map[string][]string{}
 		for _, w := range []string{WA, WB} {
-			switch rapid.IntRange(0, 3).Draw(t, "entry_kind") {
+			kind := rapid.IntRange(0, 3).Draw(t, "entry_kind")
+			if client == "alice" && rapid.Bool().Draw(t, "alice_all") {
+				kind = 1
+			}
+			switch kind {
 			case 0: // nothing for this wallet
 			case 1:
 				m[w] = []string{"All"}
 			case 2:
-				m[w] = vkit.GenOps(t, []string{"Sign", "Sign beacon attestation", "Sign beacon proposal", "Access account"})
+				m[w] = vkit.GenOps(t, focusOps)
 			default:
 				for _, a := range accounts[w] {
 					if rapid.Bool().Draw(t, "acc_entry") {
-						m[w+"/"+a] = vkit.GenOps(t, []string{"Sign", "Sign beacon attestation", "Sign beacon proposal", "Access account"})
+						m[w+"/"+a] = vkit.GenOps(t, focusOps)
 					}
 				}
 			}
@@ -483,12 +550,14 @@ func genCase(t *rapid.T) *Case {
 			s.Kind, s.Accs = "propose", []int{acc}
 		case k < 74:
 			s.Kind, s.Accs = "sign", []int{acc}
-		case k < 82:
+		case k < 79:
 			s.Kind = "multisign"
 			s.Accs = rapid.Permutation([]int{0, 1, 2, 3}).Draw(t, "accs")[:rapid.IntRange(2, 4).Draw(t, "nacc")]
-		case k < 90:
+		case k < 84:
+			s.Kind, s.Accs = rapid.SampledFrom([]string{"lock", "unlock", "create", "create"}).Draw(t, "manage"), []int{acc}
+		case k < 92:
 			s.Kind = "list"
-		case k < 96:
+		case k < 97:
 			s.Kind = "restart-kill"
 		default:
 			s.Kind = "restart-term"
@@ -568,6 +637,8 @@ func TestE2E(t *testing.T) {
 		vkit.S.ClassN("e2e:daemon-restarts", o.restarts)
 		vkit.S.ClassN("e2e:calls-without-a-certificate-from-the-authority", o.foreign)
 		vkit.S.ClassN("e2e:listings", o.listed)
+		vkit.S.ClassN("e2e:accounts-created-through-the-daemon", o.created)
+		vkit.S.ClassN("e2e:lock-unlock-create-operations-carried-out", o.managed)
 		if o.released > 0 && o.refused > 0 {
 			vkit.S.Nontrivial(c)
 		}
